@@ -24,6 +24,7 @@ import tempfile
 import warnings
 
 import core  # noqa: F401
+import isoutil
 import sparqlgen as G
 
 warnings.filterwarnings("ignore")
@@ -52,6 +53,7 @@ TRUSTED = ["harness/sparqlgen.py (generator, SPARQL printer, s-expression encode
 
 
 MAX_QUERY_TEXT = 2500
+ISO_MAX_MINTED = 12   # isoutil.iso is consulted for CONSTRUCT results with at most this many minted blank nodes
 PROBE_SHARE = 0.15  # share of queries from sparqlgen's scoping-probe template (see there)
 _GENERATED = []   # query texts made by gen_case in this process (for the bulk algebra prefetch in model_lines)
 _ALG = {}         # query text -> s-expression of rdflib's translated algebra
@@ -120,6 +122,13 @@ def _mutate_in_place(g, old, new):
         diff(g, old["default"], new["default"])
 
 
+def _as_rdflib_triples(ts):
+    from rdflib import BNode
+    def conv(x):
+        return BNode("m%s_%s" % (x[1], x[2])) if x[0] == "fb" else G.to_rdflib_term(x)
+    return {tuple(conv(x) for x in t) for t in ts}
+
+
 def _judge(q, got, ref, impl_line, ref_line, star, tag0=""):
     viol = []
     if "error" in got:
@@ -132,6 +141,19 @@ def _judge(q, got, ref, impl_line, ref_line, star, tag0=""):
             viol.append(f"{tag0}vars: Result.vars {got['vars']} differ from the projection {ref['vars']}")
         elif star and not set(ref["vars"]) <= set(got["vars"]):
             viol.append(f"{tag0}vars: SELECT * misses in-scope variables: {got['vars']} vs {ref['vars']}")
+    elif q["form"] == "construct":
+        # CONSTRUCT: equality up to a renaming of the minted blank nodes.  The canonical text of sparqlgen.canon_graph is
+        # exact for template-shaped graphs; harness/isoutil.py (the independent decision procedure) is asked as well
+        # whenever the graphs are small enough for its backtracking (many interchangeable minted nodes make it explode).
+        same = impl_line == ref_line
+        minted = {x for g_ in (got["graph"], ref["graph"]) for t_ in g_ for x in t_ if x[0] == "fb"}
+        if len(minted) <= ISO_MAX_MINTED:
+            if isoutil.iso(_as_rdflib_triples(got["graph"]), _as_rdflib_triples(ref["graph"])) != same:
+                viol.append(f"{tag0}harness: canonical graph text and isoutil.iso disagree ({impl_line[:120]} / "
+                            f"{ref_line[:120]})")
+        if not same:
+            viol.append(f"{tag0}construct: rdflib gives {impl_line[:200]} but the algebra gives {ref_line[:200]} for "
+                        f"{G.to_sparql(q)[:300]}")
     elif impl_line != ref_line:
         tag = "ask" if q["form"] == "ask" else "construct"
         viol.append(f"{tag0}{tag}: rdflib gives {impl_line[:200]} but the algebra gives {ref_line[:200]} for "
